@@ -1,5 +1,7 @@
 (* Property C09 — pending transactions are tracked exactly: flagged, not reused, settled once.
-   Only statements here; proofs are in Ledger/PendingProofs.v.
+   Only statements here; proofs are in Ledger/PendingProofs.v and Ledger/PendingProofs3.v (the index of
+   pending spenders is complete for wallet coins along every history: rollback keeps registrations, the
+   conflict clause for reachable states).
    Model: Ledger/Pending.v (filterTx for unconfirmed transactions, insertMemPoolTx, addUnminedCredits,
    insertUnminedInputs, insertMinedTx's settle part, removeDoubleSpends, removeConflict, Rollback's move
    back to the unmined bucket, deleteUnminedInputs, the handler's volatile set, the flag and selection
@@ -18,6 +20,7 @@ From Coq Require Import List ZArith NArith Bool.
 Import ListNotations.
 Open Scope Z_scope.
 Require Import MW.Ledger.Model MW.Ledger.Spec MW.Ledger.Run MW.Ledger.Pending MW.Ledger.PendingProofs.
+Require Import MW.Ledger.PendingProofs2 MW.Ledger.PendingProofs3.
 
 (* ---- flagged, not reused *)
 
@@ -91,6 +94,9 @@ Print Assumptions C09_settled_records.
 
 (* ---- a conflicting transaction confirms *)
 
+(* relative to the index of pending spenders (bucket "mi"); C09_registered_complete and
+   C09_conflict_vanishes_history below show that the index is complete for wallet coins in every
+   reachable state, which turns this into a statement about the transactions that SPEND the coin *)
 Theorem C09_conflict_purges_descendants :
   forall own s r s', remove_double_spends own s r = POk s' ->
     (forall ri T, In ri (rr_ins r) -> In T (ui_get (ps_uinputs s) (ri_prev ri)) ->
@@ -121,6 +127,8 @@ Print Assumptions C09_conflict_fuel.
 
 (* ---- reorganised away: back in the pending set, readable *)
 
+(* the rolled-back transaction itself; what happens to the OTHER spenders registered under the same
+   outpoints is C09_rollback_keeps_registrations below *)
 Theorem C09_rollback_readable :
   forall cs s r s' ops,
     NoDup (map t_id (br_txs r)) ->
@@ -227,3 +235,294 @@ Example C09_example_rollback :
   read_unmined s 10%N = RdOk Ex.t10 /\ spent_by_unmined s (1, 0)%N = true /\ ps_game s = [] /\
   map (fun r => (ug_tx r, ug_vout r)) (ps_ugame s) = [(10%N, 0%N)].
 Proof. vm_compute. repeat split; reflexivity. Qed.
+
+(* ================================================================ the index of pending spenders is complete *)
+
+(* ---- Rollback keeps registrations *)
+
+(* the move-back loop of Rollback (putRawUnminedInput: read, append, write) keeps every registration that
+   was there, whatever it adds under the same outpoint, and nothing leaves the pending set *)
+Theorem C09_rollback_keeps_registrations :
+  forall a3fix cs s r s' ops, rollback_move a3fix cs s r = POk (s', ops) ->
+    (forall o sp, In sp (ui_get (ps_uinputs s) o) -> In sp (ui_get (ps_uinputs s') o)) /\
+    (forall k, pend s k <> None -> pend s' k <> None).
+Proof. exact rollback_keeps_registrations. Qed.
+Print Assumptions C09_rollback_keeps_registrations.
+
+(* Rollback of one block, including the purge of the spenders of its coinbase outputs: the registrations of
+   every transaction that is still pending afterwards are kept *)
+Theorem C09_rollback_one_keeps_registrations :
+  forall a3fix own cs s h s', p_rollback_one a3fix own cs s h = POk s' ->
+    forall o sp, In sp (ui_get (ps_uinputs s) o) -> pend s' sp <> None -> In sp (ui_get (ps_uinputs s') o).
+Proof. exact rollback_one_keeps_registrations. Qed.
+Print Assumptions C09_rollback_one_keeps_registrations.
+
+(* a Rollback that OVERWRITES the entry (Put(outpoint, hash) instead of read-append-write;
+   PendingProofs3.rollback_tx_overwrite, everything else as in the model): T (10) is mined spending (1,0);
+   the node switches forks; U (11), spending (1,0) and (2,0), is delivered before the wallet processes the
+   new fork; the wallet rolls T's block back; T is mined again.  In the model U is found under (1,0) and
+   removed, (2,0) is free again; in the variant the rollback lost U's registration under (1,0): U stays
+   pending and (2,0) stays flagged, with the same ledger. *)
+Theorem C09_rollback_overwrite_refuted :
+  let sm := h_store (q_h (prun Overwrite.p true Overwrite.g Overwrite.evs)) in
+  let sv := h_store (q_h (prun_overwrite Overwrite.p true Overwrite.g Overwrite.evs)) in
+  let sm0 := h_store (q_h (prun Overwrite.p true Overwrite.g Overwrite.before_remine)) in
+  let sv0 := h_store (q_h (prun_overwrite Overwrite.p true Overwrite.g Overwrite.before_remine)) in
+  (read_unmined sm0 10%N = RdOk Overwrite.T /\ read_unmined sm0 11%N = RdOk Overwrite.U /\
+   ui_get (ps_uinputs sm0) (1, 0)%N = [11; 10]%N) /\
+  (read_unmined sv0 10%N = RdOk Overwrite.T /\ read_unmined sv0 11%N = RdOk Overwrite.U /\
+   ui_get (ps_uinputs sv0) (1, 0)%N = [10]%N) /\
+  (read_unmined sm 11%N = RdNone /\ spent_by_unmined sm (2, 0)%N = false /\ ps_uinputs sm = []) /\
+  (read_unmined sv 11%N = RdOk Overwrite.U /\ spent_by_unmined sv (2, 0)%N = true /\
+   credits (ps_w sv) = credits (ps_w sm) /\ tx_recorded sv 10%N = true).
+Proof. exact rollback_overwrite_refuted. Qed.
+Print Assumptions C09_rollback_overwrite_refuted.
+
+Theorem C09_rollback_overwrite_loses_registration :
+  exists cs s r s' ops o sp,
+    rollback_move_w rollback_tx_overwrite true cs s r = POk (s', ops) /\
+    In sp (ui_get (ps_uinputs s) o) /\ pend s' sp <> None /\ ~ In sp (ui_get (ps_uinputs s') o).
+Proof. exact rollback_overwrite_loses_registration. Qed.
+Print Assumptions C09_rollback_overwrite_loses_registration.
+
+(* the variant run with the model's own step is the model's run (the variant differs in nothing else) *)
+Theorem C09_variant_run_is_model_run :
+  forall p a3fix g h, prun_w rollback_tx p a3fix g h = prun p a3fix g h.
+Proof. exact prun_w_model. Qed.
+Print Assumptions C09_variant_run_is_model_run.
+
+(* ---- the whole-history invariant *)
+
+(* Premises (environment):
+   - [powners_before_seen g h]: an address is issued before any transaction paying it is shown to the wallet,
+     in an attached block, an announced block or as an unconfirmed transaction (E3; [powners_before_paid] of
+     wf_phistory is the part about attached blocks);
+   - [seen_ids_agree g h]: a transaction id names one transaction among all those shown to the wallet (E1/E4;
+     wfp_txids of wf_phistory is the part about blocks).
+   [wallet_out own P i]: output i of P exists, has a supported script class and pays a ready wallet. *)
+
+(* in every state a history reaches, every input of a readable pending transaction is registered under its
+   outpoint, or spends an output of a transaction shown to the wallet that is NOT a wallet output
+   (finding stale-pending:foreign-input: those are not registered) *)
+Theorem C09_registered_or_foreign :
+  forall p a3fix g h, powners_before_seen g h ->
+    let q := prun p a3fix g h in
+    let s := h_store (q_h q) in
+    forall X tX o, pend s X = Some (USer tX) -> In o (t_ins tX) ->
+      In X (ui_get (ps_uinputs s) o) \/
+      exists pt, In pt (b_txs g ++ seen_txs h) /\ t_id pt = fst o /\ ~ wallet_out (own_of (q_own q)) pt (snd o).
+Proof. intros p a3fix g h Hown q s. exact (sv_regd _ _ _ (proj2 (prun_qinv p a3fix g h Hown))). Qed.
+Print Assumptions C09_registered_or_foreign.
+
+(* hence: a readable pending transaction is registered under every input that spends a wallet output of a
+   transaction the wallet has been shown, and that outpoint is reported spent_by_unmined *)
+Theorem C09_registered_complete :
+  forall p a3fix g h, powners_before_seen g h -> seen_ids_agree g h ->
+    let q := prun p a3fix g h in
+    let s := h_store (q_h q) in
+    forall X tX o P, pend s X = Some (USer tX) -> In o (t_ins tX) ->
+      In P (b_txs g ++ seen_txs h) -> t_id P = fst o -> wallet_out (own_of (q_own q)) P (snd o) ->
+      In X (ui_get (ps_uinputs s) o) /\ spent_by_unmined s o = true.
+Proof. exact registered_complete. Qed.
+Print Assumptions C09_registered_complete.
+
+(* and for the coins of the store: every credit of the ledger that a readable pending transaction spends is
+   registered under it, reported spent_by_unmined and not eligible for new transactions *)
+Theorem C09_registered_complete_credits :
+  forall p a3fix g h, wf_phistory g h -> powners_before_seen g h -> seen_ids_agree g h ->
+    let s := h_store (q_h (prun p a3fix g h)) in
+    forall X tX c, pend s X = Some (USer tX) -> In c (credits (ps_w s)) -> In (credit_op c) (t_ins tX) ->
+      In X (ui_get (ps_uinputs s) (credit_op c)) /\ spent_by_unmined s (credit_op c) = true /\ eligible s c = false.
+Proof. exact registered_complete_credits. Qed.
+Print Assumptions C09_registered_complete_credits.
+
+(* ---- a conflicting transaction confirms, in reachable states *)
+
+(* [vanished s s' confirmed X tX]: X is not pending in s'; nor is any registered descendant of X (through
+   pending transactions outside [confirmed]); X is registered under none of its inputs; an input only X was
+   registered under is not flagged; nothing was added to the pending buckets.
+   The relevant transaction M of the block and the wallet coin it spends appear as the record r filterBlock
+   makes for M and its recognised input ri (ri_prev ri is the outpoint). *)
+Theorem C09_conflict_vanishes_history :
+  forall p a3fix g h b, powners_before_seen g h -> seen_ids_agree g (h ++ [PvProcess b]) ->
+    let q := prun p a3fix g h in
+    let s := h_store (q_h q) in
+    let own := own_of (q_own q) in
+    forall recs s' ids,
+      filter_block_txs own (credits (ps_w s)) (lookup_pending (q_node q) (ps_unmined s)) [] (b_txs b) = Ok recs ->
+      p_connect_block p own (q_node q) (ps_unmined s) s b = POk (s', ids) ->
+      forall X tX r ri, pend s X = Some (USer tX) -> ~ In X ids ->
+        In r recs -> In ri (rr_ins r) -> In (ri_prev ri) (t_ins tX) ->
+        vanished s s' (fun k => In k ids) X tX.
+Proof. exact conflict_vanishes_history. Qed.
+Print Assumptions C09_conflict_vanishes_history.
+
+(* processConnectedBlock for a block extending the wallet's tip *)
+Theorem C09_conflict_vanishes_process :
+  forall p a3fix g h b, powners_before_seen g h -> seen_ids_agree g (h ++ [PvProcess b]) ->
+    let q := prun p a3fix g h in
+    let s := h_store (q_h q) in
+    let own := own_of (q_own q) in
+    forall hs', (snd (tip (ps_w s)) =? b_prev b)%N = true ->
+      pprocess p a3fix own (q_node q) (q_h q) b = POk hs' ->
+      exists recs,
+        filter_block_txs own (credits (ps_w s)) (lookup_pending (q_node q) (ps_unmined s)) [] (b_txs b) = Ok recs /\
+        forall X tX r ri, pend s X = Some (USer tX) -> ~ In X (rec_ids recs) ->
+          In r recs -> In ri (rr_ins r) -> In (ri_prev ri) (t_ins tX) ->
+          vanished s (h_store hs') (fun k => In k (rec_ids recs)) X tX.
+Proof. exact conflict_vanishes_process. Qed.
+Print Assumptions C09_conflict_vanishes_process.
+
+(* every block connected during a reorganisation: the same for any state satisfying the invariant [sinv]
+   (which Rollback and every connected block keep: PendingProofs3.p_rollback_to_sinv, p_connect_block_sinv);
+   s0 is the committed state the look-up reads *)
+Theorem C09_connect_block_conflict :
+  forall S p own n s0 s b s' ids recs,
+    ids_agree_on S -> node_in S n -> (forall t, In t (b_txs b) -> In t S) -> sinv S own s0 -> sinv S own s ->
+    filter_block_txs own (credits (ps_w s)) (lookup_pending n (ps_unmined s0)) [] (b_txs b) = Ok recs ->
+    p_connect_block p own n (ps_unmined s0) s b = POk (s', ids) ->
+    ids = rec_ids recs /\
+    forall X tX r ri, pend s X = Some (USer tX) -> ~ In X ids ->
+      In r recs -> In ri (rr_ins r) -> In (ri_prev ri) (t_ins tX) ->
+      vanished s s' (fun k => In k ids) X tX.
+Proof. exact connect_block_conflict. Qed.
+Print Assumptions C09_connect_block_conflict.
+
+(* processConnectedBlock as a whole (rollback of any depth, then every block of the new branch) keeps both
+   invariants, from any state: [sinv] (pending inputs registered or foreign) and [ginv] (registrations
+   belong to pending spenders) *)
+Theorem C09_invariant_kept_by_process :
+  forall S p own n hs b hs', ids_agree_on S -> node_in S n -> (forall t, In t (b_txs b) -> In t S) ->
+    sinv S own (h_store hs) -> ginv (h_store hs) -> pprocess p true own n hs b = POk hs' ->
+    sinv S own (h_store hs') /\ ginv (h_store hs').
+Proof.
+  intros S p own n hs b hs' Hid Hn Hb Hs Hg H.
+  split; [exact (pprocess_sinv S p true own n hs b hs' Hn Hb Hs H)|exact (pprocess_ginv S p own n hs b hs' Hid Hn Hb Hs Hg H)].
+Qed.
+Print Assumptions C09_invariant_kept_by_process.
+
+(* the registered descendants are the real ones as far as wallet outputs go: a pending D that spends a
+   wallet output of a pending X is a registered child of X (a child hanging on a NON-wallet output of X is
+   not registered: finding stale-pending:foreign-input) *)
+Theorem C09_wallet_child_registered :
+  forall p a3fix g h, powners_before_seen g h -> seen_ids_agree g h ->
+    let q := prun p a3fix g h in
+    let s := h_store (q_h q) in
+    forall (avoid : N -> Prop) X tX D tD i,
+      pend s X = Some (USer tX) -> pend s D = Some (USer tD) -> In (X, i) (t_ins tD) ->
+      wallet_out (own_of (q_own q)) tX i -> ~ avoid X -> cdesc s avoid X D.
+Proof. exact wallet_child_registered_history. Qed.
+Print Assumptions C09_wallet_child_registered.
+
+(* when no pending transaction is in [avoid], cdesc is PendingProofs.desc *)
+Theorem C09_cdesc_is_desc :
+  forall s (avoid : N -> Prop) X D, (forall k, avoid k -> pend s k = None) -> (desc s X D <-> cdesc s avoid X D).
+Proof. intros s avoid X D Ha. split; [apply desc_cdesc; exact Ha|apply cdesc_desc]. Qed.
+Print Assumptions C09_cdesc_is_desc.
+
+(* the converse of C09_registered_complete: whatever is registered under an outpoint is a readable pending
+   transaction that spends it (the flag is never stale) *)
+Theorem C09_registrations_are_pending :
+  forall p g h, powners_before_seen g h -> seen_ids_agree g h ->
+    let s := h_store (q_h (prun p true g h)) in
+    forall o sp, In sp (ui_get (ps_uinputs s) o) -> exists t, pend s sp = Some (USer t) /\ In o (t_ins t).
+Proof. exact prun_ginv. Qed.
+Print Assumptions C09_registrations_are_pending.
+
+(* "the coins they held are free again": after the block, an input of the vanished X is still flagged only
+   if another transaction, pending before and still pending, spends it *)
+Theorem C09_conflict_frees_coins :
+  forall p g h b, powners_before_seen g h -> seen_ids_agree g (h ++ [PvProcess b]) ->
+    let q := prun p true g h in
+    let s := h_store (q_h q) in
+    let own := own_of (q_own q) in
+    forall recs s' ids,
+      filter_block_txs own (credits (ps_w s)) (lookup_pending (q_node q) (ps_unmined s)) [] (b_txs b) = Ok recs ->
+      p_connect_block p own (q_node q) (ps_unmined s) s b = POk (s', ids) ->
+      forall X tX r ri, pend s X = Some (USer tX) -> ~ In X ids ->
+        In r recs -> In ri (rr_ins r) -> In (ri_prev ri) (t_ins tX) ->
+        forall o, In o (t_ins tX) -> spent_by_unmined s' o = true ->
+          exists Y tY, Y <> X /\ pend s' Y = Some (USer tY) /\ In o (t_ins tY) /\ pend s Y = Some (USer tY).
+Proof. exact conflict_frees_coins. Qed.
+Print Assumptions C09_conflict_frees_coins.
+
+(* the premise about delivered transactions cannot be dropped: wf_phistory (which constrains blocks only) and
+   seen_ids_agree hold, an address is issued AFTER an unconfirmed transaction paying it was delivered, and a
+   pending transaction ends up spending a coin of the store that is neither flagged nor excluded from
+   selection (PendingProofs3.LateOwner) *)
+Theorem C09_registered_complete_without_owner_premise_refuted :
+  exists p g h X tX c,
+    wf_phistory g h /\ seen_ids_agree g h /\ ~ powners_before_seen g h /\
+    let s := h_store (q_h (prun p true g h)) in
+    pend s X = Some (USer tX) /\ In c (credits (ps_w s)) /\ In (credit_op c) (t_ins tX) /\
+    spent_by_unmined s (credit_op c) = false /\ eligible s c = true.
+Proof. exact registered_complete_without_owner_premise_refuted. Qed.
+Print Assumptions C09_registered_complete_without_owner_premise_refuted.
+
+(* ---- not vacuous: t10 mined in b3; the node switches to b3e; t12, spending (1,0) like t10 and (2,0), is
+   delivered while the wallet still has t10 mined; the wallet processes b3e (b3 rolled back, t10 pending
+   again next to t12); t10 is mined again in b4e *)
+Module ExR.
+  Definition t12 : tx := {| t_id := 12; t_cb := false; t_ins := [(1, 0)%N; (2, 0)%N]; t_outs := [ {| o_sh := 9; o_val := 10; o_class := CStd |} ] |}.
+  Definition b3e : block := {| b_id := 6; b_prev := 2; b_height := 3; b_txs := [Ex.cb 6] |}.
+  Definition b4e : block := {| b_id := 7; b_prev := 6; b_height := 4; b_txs := [Ex.cb 7; Ex.t10] |}.
+  Definition before : list pevent :=
+    [PvOwner 1 1; PvAttach Ex.b1; PvProcess Ex.b1; PvAttach Ex.b2; PvProcess Ex.b2; PvAttach Ex.b3; PvProcess Ex.b3;
+     PvDetach; PvAttach b3e; PvReceive t12; PvProcess b3e; PvAttach b4e].
+  Definition evs : list pevent := before ++ [PvProcess b4e].
+End ExR.
+
+(* the premises of the history theorems hold for it *)
+Example C09_example_reorg_premises :
+  wf_phistory Ex.g ExR.evs /\ powners_before_seen Ex.g ExR.evs /\ seen_ids_agree Ex.g ExR.evs /\
+  block_ordered Ex.g /\ Forall event_ordered ExR.evs.
+Proof.
+  split; [apply wf_phistory_b_sound; vm_compute; reflexivity|].
+  split; [apply powners_before_seen_b_sound; vm_compute; reflexivity|].
+  split; [apply seen_ids_agree_b_sound; vm_compute; reflexivity|].
+  split; [intros t []|].
+  repeat constructor.
+  all: cbn [event_ordered]; unfold block_ordered, tx_ordered; intros;
+    repeat match goal with
+           | H : False |- _ => destruct H
+           | H : _ \/ _ |- _ => destruct H as [<-|H]
+           | H : In _ _ |- _ => cbn in H; first [destruct H as [<-|H]|destruct H]
+           end; reflexivity.
+Qed.
+
+(* before t10 is mined again: t10 and t12 are both pending and both registered under (1,0), every wallet
+   coin they spend is flagged; the hypotheses of C09_conflict_vanishes_process hold for t12 against b4e *)
+Example C09_example_reorg_before :
+  let q := prun Ex.p true Ex.g ExR.before in
+  let s := h_store (q_h q) in
+  let own := own_of (q_own q) in
+  read_unmined s 10%N = RdOk Ex.t10 /\ read_unmined s 12%N = RdOk ExR.t12 /\
+  ui_get (ps_uinputs s) (1, 0)%N = [12; 10]%N /\ ui_get (ps_uinputs s) (2, 0)%N = [12]%N /\
+  map credit_op (eligible_list s 1%N) = [(6, 0)%N] /\
+  (snd (tip (ps_w s)) =? b_prev ExR.b4e)%N = true /\
+  exists hs' recs r ri,
+    pprocess Ex.p true own (q_node q) (q_h q) ExR.b4e = POk hs' /\
+    filter_block_txs own (credits (ps_w s)) (lookup_pending (q_node q) (ps_unmined s)) [] (b_txs ExR.b4e) = Ok recs /\
+    pend s 12%N = Some (USer ExR.t12) /\ ~ In 12%N (rec_ids recs) /\
+    In r recs /\ In ri (rr_ins r) /\ In (ri_prev ri) (t_ins ExR.t12).
+Proof.
+  cbv zeta. split; [vm_compute; reflexivity|]. split; [vm_compute; reflexivity|]. split; [vm_compute; reflexivity|].
+  split; [vm_compute; reflexivity|]. split; [vm_compute; reflexivity|]. split; [vm_compute; reflexivity|].
+  eexists. eexists.
+  exists {| rr_tx := Ex.t10; rr_ins := [ {| ri_index := 0; ri_prev := (1, 0)%N; ri_wallet := 1 |} ];
+            rr_outs := [ {| ro_index := 0; ro_out := {| o_sh := 1; o_val := 3; o_class := CStaking 2 |}; ro_wallet := 1 |} ] |}.
+  exists {| ri_index := 0; ri_prev := (1, 0)%N; ri_wallet := 1 |}.
+  split; [vm_compute; reflexivity|]. split; [vm_compute; reflexivity|]. split; [vm_compute; reflexivity|].
+  split; [vm_compute; intros [H|[H|[]]]; discriminate H|].
+  split; [right; left; reflexivity|]. split; [left; reflexivity|left; reflexivity].
+Qed.
+
+(* t10 mined again: t12 is gone, nothing is registered any more, the coin only t12 held, (2,0), is free
+   and selectable again; t10 is an ordinary ledger entry *)
+Example C09_example_reorg_after :
+  let s := Ex.st ExR.evs in
+  read_unmined s 12%N = RdNone /\ read_unmined s 10%N = RdNone /\ ps_uinputs s = [] /\ ps_ucredits s = [] /\
+  spent_by_unmined s (2, 0)%N = false /\ In (2, 0)%N (map credit_op (eligible_list s 1%N)) /\
+  tx_recorded s 10%N = true /\
+  map (fun r => (g_tx r, g_vout r, g_height r, g_withdrawn r)) (ps_game s) = [(10%N, 0%N, 4, false)].
+Proof. vm_compute. repeat split; try reflexivity. tauto. Qed.
